@@ -360,6 +360,28 @@ def param_deref_summaries(P, fns):
     return out
 
 
+_pt_cache = {}
+
+
+def param_test_summaries(P):
+    """fn name -> set(param index): the function compares that pointer parameter with NULL (or uses it as a
+    truth value) and never dereferences it - a predicate such as `alloc_ok(dec, ptr, count)`. A caller
+    that hands its fresh allocation to such a function and acts on the answer has tested it."""
+    if id(P) in _pt_cache:
+        return _pt_cache[id(P)]
+    out = {}
+    for fn in P.functions.values():
+        for idx, p in enumerate(fn.params):
+            if "*" not in p["t"] or not p["n"]:
+                continue
+            L = p["n"]
+            uses = [x for x in fn.body.walk() if x.k == "DeclRefExpr" and x.get("dk") == "param" and x.name == L]
+            if uses and all(_is_truth_use(x) or _is_truth_use_or_cmp(x) for x in uses) and any(_is_truth_use_or_cmp(x) for x in uses):
+                out.setdefault(fn.name, set()).add(idx)
+    _pt_cache[id(P)] = out
+    return out
+
+
 def _is_reassign(e, L):
     return e.k == "BinaryOperator" and e.op == "=" and lvalue_text(e.c[0]) == L
 
@@ -410,10 +432,15 @@ def check_allocations(ctx, fns, rule, allocators=ALLOCATORS, extra_alloc=(), sum
                 continue
             b, idx = w[anchor.i]
 
+            tests = param_test_summaries(P)
+
             def is_test(e, L=L, node=node):
                 if e.k in ("DeclRefExpr", "MemberExpr", "ArraySubscriptExpr") and lvalue_text(e) == L \
                         and _is_truth_use(e):
                     return True
+                if e.k == "CallExpr" and e.callee in tests and any(
+                        ai < len(e.args()) and lvalue_text(e.args()[ai]) == L for ai in tests[e.callee]) and _result_is_acted_on(e):
+                    return True         # handed to a predicate that NULL-tests it, and the answer decides a branch
                 return _is_reassign(e, L) and e is not node
 
             hit = {}
@@ -441,6 +468,14 @@ def check_allocations(ctx, fns, rule, allocators=ALLOCATORS, extra_alloc=(), sum
                         % (L, call.callee, hit.get("what"), hit["node"].l),
                         "path: %s" % describe_path(fn, fn.cfg, path), witness={"blocks": path})
     return n
+
+
+def _result_is_acted_on(call):
+    p = _strip_up(call)
+    while p is not None and p.k == "UnaryOperator" and p.op == "!":
+        p = _strip_up(p)
+    return p is not None and p.k in ("IfStmt", "WhileStmt", "ConditionalOperator") or \
+        (p is not None and p.k == "BinaryOperator" and p.op in ("&&", "||", "==", "!="))
 
 
 def _is_truth_use_or_cmp(e):
